@@ -7,7 +7,7 @@ CONSTANTS
   MaxFinds = 1
   MaxInjects = 1
   MaxExpires = 0
-  MaxLosses = 1
+  MaxLosses = 0
   AsBuilt = FALSE
 VIEW DesignView
 INVARIANTS RecordedPathsOK InFlightPathsOK RelaySkipOK BoundedMessages
